@@ -13,6 +13,7 @@ mod exec_own;
 mod oracle_cont;
 mod gen_cont;
 mod gen_edge;
+mod gen_live;
 mod gen_search;
 mod hook;
 mod oracle;
@@ -507,6 +508,75 @@ fn c15_props(tier: &str, seed: u64, threads: usize, out: &str) {
     write_outputs(out, &ctxs, extra);
 }
 
+/// C20: every script of length 1 at every step of every loop kind on small graphs (sampled in the quick
+/// tier), scripts that keep adding edges for a bounded number of steps, random scripts on larger graphs
+fn live_props(tier: &str, seed: u64, threads: usize, out: &str) {
+    let quick = tier == "quick";
+    let mut ctxs = new_ctxs(threads, &["c20", "mirror"]);
+    let mut extra = BTreeMap::new();
+    let all = ["di", "sdi", "un", "sun"];
+    let (n, mmax) = if quick { (2usize, 2usize) } else { (2, 3) };
+    let alpha = gen_live::op_alphabet(n);
+    for fl in all {
+        exec::new_section();
+        let kinds = gen_live::loop_kinds(fl);
+        let mut jobs: Vec<(usize, usize, usize, usize, usize, usize)> = vec![];
+        for m in 0..=mmax {
+            for idx in 0..gen_search::count_seqs(n, m) {
+                for k in 0..kinds.len() {
+                    for root in 0..n {
+                        for step in 0..3 {
+                            for op in 0..alpha.len() {
+                                jobs.push((m, idx, k, root, step, op));
+                            }
+                        }
+                    }
+                }
+            }
+        }
+        let total = jobs.len();
+        // the quick tier takes every 6th job (rotated by the seed); the thorough tier all of them
+        let stride = if quick { 6 } else { 1 };
+        let sel: Vec<(usize, usize, usize, usize, usize, usize)> = jobs.into_iter().enumerate().filter(|(i, _)| (i + seed as usize) % stride == 0).map(|(_, j)| j).collect();
+        let sel = &sel;
+        let kinds = &kinds;
+        let alpha = &alpha;
+        spread(&mut ctxs, sel.len(), |i| {
+            let (m, idx, k, root, step, op) = sel[i];
+            let g = gen_search::GraphSpec { n, vals: (0..n).map(|x| ((idx + x) % 3) as i64).collect(), edges: gen_search::seq_graph(n, m, idx) };
+            gen_live::live_case(fl, &format!("l{i}"), &g, &kinds[k], root, if op % 2 == 0 { None } else { Some((root + 1) % n) }, &format!("{step}={}", alpha[op]), op % 3 == 0)
+        });
+        extra.insert(format!("enumerated.{fl}"), format!("{} of {total} (graph, loop kind, root, step, operation) combinations on {n} nodes / <={mmax} edges", sel.len()));
+        // scripts that add edges for a bounded number of steps: the loop must still end
+        exec::new_section();
+        let nb = if quick { 200 } else { 2000 };
+        spread(&mut ctxs, nb, |i| {
+            let mut rng = Rng::new(seed.wrapping_mul(73).wrapping_add(i as u64));
+            let g = gen_search::random_graph(&mut rng, 4);
+            let kinds = gen_live::loop_kinds(fl);
+            let root = rng.below(g.n);
+            let k = &kinds[rng.below(kinds.len())];
+            let script = format!("*{}=c.{root}.{}.7{}", 1 + rng.below(5), rng.below(g.n), if rng.chance(40) { format!("/c.{}.{root}.6", rng.below(g.n)) } else { String::new() });
+            gen_live::live_case(fl, &format!("a{i}"), &g, k, root, None, &script, false)
+        });
+    }
+    exec::new_section();
+    let nr = if quick { 800 } else { 20000 };
+    spread(&mut ctxs, nr, |i| {
+        let mut rng = Rng::new(seed.wrapping_mul(79).wrapping_add(i as u64));
+        let fl = all[i % 4];
+        let g = gen_search::random_graph(&mut rng, 7);
+        let kinds = gen_live::loop_kinds(fl);
+        let root = rng.below(g.n);
+        let k = kinds[rng.below(kinds.len())].clone();
+        let script = gen_live::random_script(&mut rng, g.n);
+        let tg = if rng.chance(40) { Some(rng.below(g.n)) } else { None };
+        gen_live::live_case(fl, &format!("r{i}"), &g, &k, root, tg, &script, rng.chance(30))
+    });
+    extra.insert("random".into(), format!("{nr} loops with random scripts of 1-3 entries on graphs up to 7 nodes"));
+    write_outputs(out, &ctxs, extra);
+}
+
 /// C17: every schedule of every scenario (exhaustive depth-first over the decision points)
 fn conc_props(tier: &str, seed: u64, out: &str) {
     let quick = tier == "quick";
@@ -613,6 +683,7 @@ fn main() {
                 "C19" => own_props(&tier, seed, threads, &out),
                 "C17" => conc_props(&tier, seed, &out),
                 "C15" => c15_props(&tier, seed, threads, &out),
+                "C20" => live_props(&tier, seed, threads, &out),
                 "C11" | "C12" | "C13" | "C18" => cont_props(&prop, &tier, seed, threads, &out),
                 "C04" | "C05" | "C06" | "C07" | "C08" | "C09" | "C10" => search_props(&prop, &tier, seed, threads, &out),
                 _ => {
